@@ -166,7 +166,8 @@ PROPERTIES = {
                            "'last' / 'min' / 'max' return the first / last non-zero, the smallest non-zero (0 if none) and the largest "
                            "entry of each line. bounded stand-in: 'shadow' (zeros, signs, ties, order incl. later rows above earlier, "
                            "strict dominance, priorities beyond 2**53), 'prio' / 'rank' (dense, order preserving), batched 3-D. ADDED: ranking (1-D, row-wise 2-D), prio/rank (1x2, 2x1, 2x2; 2x3, 3x2 thorough; both axes) and shadow (1-D n<=3, 2-D <=2x2; larger thorough) through the real Python code with symbolic entries; for shadow the compiled bit allocation is replaced by the executable form of its assumed contract A-rs2 (pyvc.rsmodel), which is validated against the compiled function at run time."},
-    "C14": {"harness_modules": ["contracts.c14", "contracts.c14shape"], "lean": True, "rt": ["rt.arrays:a_rs2_bit_allocation", "rt.config:c14_objectives"], "level": "other",
+    "C14": {"harness_modules": ["contracts.c14", "contracts.c14shape", "contracts.c15"], "lean": True,
+            "harness_filter": lambda h: type(h).__module__ in ("contracts.c14", "contracts.c14shape") or h.name == "StingyConfigurator.select", "rt": ["rt.arrays:a_rs2_bit_allocation", "rt.config:c14_objectives"], "level": "other",
             "assumptions": S_ALL + ["A-rs2: the weights come from puan_rspy.py_optimized_bit_allocation_64 (compiled Rust): assumed contract as "
                                     "an executable model (pyvc.rsmodel, see C13), validated against the compiled function at run time"],
             "explanation": "deductive: cc.Any.__init__ / cc.Xor.__init__ (real source, abstract duplicate-free boolean children of any "
@@ -174,7 +175,7 @@ PROPERTIES = {
                            "children are moved into an inner Any tagged prio = -2 and the default branch keeps exactly the default "
                            "child (partition), plain Any otherwise; the default is recorded. Lean: dominance_two_level. bounded "
                            "stand-in: default_prios, _vectors_from_prios through select (sequences, batches, named groups) and the "
-                           "lexicographic ranking of ALL pairs of feasible points of small configurators (ids of every sort position; default lists of several entries). END TO END (contracts.c14shape): real cc.Xor/cc.Any/StingyConfigurator constructors, real flatten, default_prios and ge_polyhedron on a concrete three-rule configurator (default lists of one and two entries; configurator id sorting first / in the middle / last; plain rule with symbolic threshold, both signs): the non-default branch is exactly the items without the FIRST listed default, its column holds -2 in the default priority vector and every other column -1. ADDED: StingyConfigurator.default_prios (tag or -1 for every flattened node, over the assumed flatten contract) and ge_polyhedron_config._vectors_from_prios (the [default vector, user row] stack handed to the shadow compression; compression itself replaced by a recorder) under contract with replay. ADDED: the objective vector end to end -- the real _vectors_from_prios including the real shadow compression over the executable form of A-rs2 (2-3 columns, symbolic default levels in {-1,-2}, symbolic user priorities): sign, equal levels equal weights, dominance of every level over the sum of all lower levels (the premise of the Lean lemma dominance_two_level)."},
+                           "lexicographic ranking of ALL pairs of feasible points of small configurators (ids of every sort position; default lists of several entries). StingyConfigurator.select (shared with C15) forwards the request unchanged, incl. priorities on named sub-propositions. END TO END (contracts.c14shape): real cc.Xor/cc.Any/StingyConfigurator constructors, real flatten, default_prios and ge_polyhedron on a concrete three-rule configurator (default lists of one and two entries; configurator id sorting first / in the middle / last; plain rule with symbolic threshold, both signs): the non-default branch is exactly the items without the FIRST listed default, its column holds -2 in the default priority vector and every other column -1. ADDED: StingyConfigurator.default_prios (tag or -1 for every flattened node, over the assumed flatten contract) and ge_polyhedron_config._vectors_from_prios (the [default vector, user row] stack handed to the shadow compression; compression itself replaced by a recorder) under contract with replay. ADDED: the objective vector end to end -- the real _vectors_from_prios including the real shadow compression over the executable form of A-rs2 (2-3 columns, symbolic default levels in {-1,-2}, symbolic user priorities): sign, equal levels equal weights, dominance of every level over the sum of all lower levels (the premise of the Lean lemma dominance_two_level)."},
     "C15": {"harness_modules": ["contracts.c15", "contracts.c14"],
             "harness_filter": only("AtLeast.solve", "ge_polyhedron_config.select", "StingyConfigurator.select",
                                    "ge_polyhedron_config._vectors_from_prios", "AtLeast.solve(built-in)"),
